@@ -58,7 +58,17 @@ def histories(ctx):
         steps = [["build", {}]]
         if rng.random() < 0.3:
             steps.append(["build", {"force": True}])
+        if rng.random() < 0.25:
+            # spelling: every node path goes through a symlinked directory (absolute, unresolved); plain Path defaults,
+            # kwargs and PathNode objects of different tasks must still denote ONE node per file, else the edge is lost
+            spec["data_via_link"] = True
         hs.append({"tag": "rand", "spec": spec, "steps": steps})
+    # corpus: producer declares the file as a plain Path default, the try_first consumer as a PathNode object, both through the link
+    hs.append({"tag": "corpus-spelling", "spec": {"data_via_link": True, "tasks": [
+        {"id": 0, "module": 0, "deps": [], "prods": [20], "after": [], "marks": [], "beh": "ok", "style": "default"},
+        {"id": 1, "module": 0, "deps": [20], "prods": [21], "after": [], "marks": ["try_first"], "beh": "ok", "style": "annotated"},
+        {"id": 2, "module": 0, "deps": [21], "prods": [22], "after": [], "marks": ["try_first"], "beh": "ok", "style": "kwargs"}],
+        "versions": {"0": 0}, "inputs": {}}, "steps": [["build", {}]]})
     return hs
 
 
